@@ -42,6 +42,12 @@ fn main() {
     std::process::exit(code);
 }
 
+/// Run this executable again with `args`; `None` = killed by a signal.
+pub fn child(args: &[&str]) -> Option<i32> {
+    let exe = std::env::current_exe().expect("current_exe");
+    std::process::Command::new(exe).args(args).status().ok().and_then(|s| s.code())
+}
+
 fn run(args: &[String]) -> i32 {
     match args[1].as_str() {
         "list" => {
@@ -50,7 +56,54 @@ fn run(args: &[String]) -> i32 {
             }
             0
         }
+        // Outer commands run the work in a child process: if the system under test aborts the
+        // process (failed allocation, stack overflow) the parent survives, finds the case and
+        // reports it as a violation instead of dying silently.
         "check" => {
+            let id = args.get(2).cloned().unwrap_or_else(|| usage());
+            let tier = args
+                .get(3)
+                .cloned()
+                .or_else(|| std::env::var("VERIF_TIER").ok())
+                .unwrap_or_else(|| "quick".into());
+            let st = child(&["check-inner", &id, &tier]);
+            match st {
+                Some(c @ (0 | 1 | 2)) => c,
+                other => framework::locate_abort(&id, &tier, other),
+            }
+        }
+        "replay" => {
+            let p = args.get(2).cloned().unwrap_or_else(|| usage());
+            match child(&["replay-inner", &p]) {
+                Some(c @ (0 | 1 | 2)) => c,
+                other => {
+                    let prop = std::fs::read_to_string(&p)
+                        .ok()
+                        .and_then(|s| serde_json::from_str::<framework::Case>(&s).ok())
+                        .map(|c| c.property)
+                        .unwrap_or_default();
+                    println!("replay {p}: the process was aborted while executing the case (status {other:?})");
+                    println!("VIOLATION property={prop} replay={p}");
+                    1
+                }
+            }
+        }
+        "case-range" => {
+            // case-range <ID> <tier> <lo> <hi>: run cases lo..hi sequentially (abort bisection)
+            let id = args.get(2).cloned().unwrap_or_else(|| usage());
+            let tier = args.get(3).cloned().unwrap_or_else(|| usage());
+            let lo: usize = args.get(4).and_then(|s| s.parse().ok()).unwrap_or(0);
+            let hi: usize = args.get(5).and_then(|s| s.parse().ok()).unwrap_or(0);
+            let seed: u64 = std::env::var("VERIF_SEED").ok().and_then(|s| s.parse().ok()).unwrap_or(20260921);
+            match checks::by_id(&id) {
+                Some(c) => {
+                    framework::run_case_range(c, &tier, seed, lo, hi);
+                    0
+                }
+                None => 2,
+            }
+        }
+        "check-inner" => {
             let id = args.get(2).cloned().unwrap_or_else(|| usage());
             let tier = args
                 .get(3)
@@ -67,7 +120,7 @@ fn run(args: &[String]) -> i32 {
                 }
             }
         }
-        "replay" => {
+        "replay-inner" => {
             let p = args.get(2).cloned().unwrap_or_else(|| usage());
             framework::run_replay(&p)
         }
